@@ -37,7 +37,8 @@ struct KString : Kind {
   void assign(void* d, void* s) override { *(String*)d = *(String*)s; }
   void modify(void* h, int tid, int n, std::string& m) override {
     char c = (char)('A' + tid); String& s = *(String*)h;
-    switch (((n % 6) + 6) % 6) {
+    switch (((n % 7) + 7) % 7) {
+      case 6: { std::string add = std::string("+") + c + "src"; String src(add.data(), add.size()); s.append(src); m += add; break; }   // append of another (counted) String: an empty target may take over the source's payload
       case 5: { static const char FOREIGN[] = "attached-foreign-text"; s.attach(FOREIGN, sizeof FOREIGN - 1); m = FOREIGN; break; }   // the handle is pointed at memory it does not own: its share of the old payload has to be given up
       case 1: s.append(c); m += c; break;
       case 2: { s.printf("%c%d", c, n); char b[32]; snprintf(b, sizeof b, "%c%d", c, n); m = b; break; }   // formatting replaces the value
